@@ -14,8 +14,11 @@
    The TLV reader is Model/Der.v's [parse_element] (encoding/asn1's header rules) restricted to
    single-octet identifiers, which is cryptobyte's readASN1 for every input shorter than 2^23 octets.
 
+   The Name SEQUENCEs (parseName, names.FromRawDN) are modelled from their octets in Model/NameDer.v:
+   [NameDer.with_names o] answers [o_name] by [NameDer.name_text]; the field stays in the record so that the
+   theorems of Proofs/CertDer.v, which hold for any oracles, apply to it unchanged.
    NOT modelled octet by octet - ORACLES, whose answers travel in the case (record [oracles]):
-     the Name SEQUENCEs (parseName, names.FromRawDN: C15's subject), the SubjectPublicKeyInfo
+     the SubjectPublicKeyInfo
      (parsePublicKey, C02's subject), the AlgorithmIdentifier of the signature (parseAI,
      getSignatureAlgorithmFromAI), url.Parse / URL.String / the host check of a URI name, and the
      values of the four extensions the library parses but the tool never reads (nameConstraints,
